@@ -54,6 +54,24 @@ def scn_compose(ctx):
                 script("map%d" % li, v[0], faulty_fns)
                 return (v[0], v[1] + k)
             ex = ex.with_map(mfn)
+        elif ln == "map_err":
+            # outermost only: a map layer with an error function that recovers (value or None) or raises
+            def mfn2(v, k=k, li=li):
+                script("map%d" % li, v[0], faulty_fns)
+                return (v[0], v[1] + k)
+
+            def efn(exc, k=k, li=li):
+                tag = exc.args[0][1] if isinstance(exc, ScriptErr) and exc.args and isinstance(exc.args[0], tuple) else None
+                lst = rec.setdefault(("err%d" % li, tag), [])
+                c = ctx.choice(3, "err%d.%s.%d" % (li, tag, len(lst)))
+                if c == 2:
+                    e = ScriptErr(("err%d" % li, tag, len(lst)))
+                    lst.append(("error", e))
+                    raise e
+                val = ("recovered", tag) if c == 0 else None
+                lst.append(("value", val))
+                return val
+            ex = ex.with_map(mfn2, error_fn=efn)
         elif ln == "flat_map":
             def ffn(v, k=k, li=li):
                 script("flat%d" % li, v[0], faulty_fns)
@@ -149,6 +167,11 @@ def scn_compose(ctx):
                     o = run(level - 1)
                 return o
             o = run(level - 1)
+            if ln == "map_err":
+                if o[0] == "value":
+                    s2 = take("map%d" % li)
+                    return ("value", (o[1][0], o[1][1] + k)) if s2[0] == "value" else s2
+                return take("err%d" % li)  # ("value", recovered | None) or ("error", raised object)
             if ln == "map" and o[0] == "value":
                 s2 = take("map%d" % li)
                 return ("value", (o[1][0], o[1][1] + k)) if s2[0] == "value" else s2
@@ -185,7 +208,10 @@ def scn_compose(ctx):
             ctx.check("invocation-counts", False, str(m))
             continue
         ctx.check("invocation-counts", True)
-        if exp[0] == "value":
+        if exp[0] == "value" and (exp[1] is None or exp[1][0] == "recovered"):
+            ctx.check("own-outcome-kind", o == exp, "submission %d: got %r, sequential evaluation (error function) gives %r" % (i, o, exp))
+            ctx.reach("error-fn-checked")
+        elif exp[0] == "value":
             ok = o[0] == "value" and isinstance(o[1], tuple) and o[1][0] == exp[1][0]
             ctx.check("own-outcome-kind", ok, "submission %d: got %r, sequential evaluation gives %r" % (i, o, exp))
             if ok:
@@ -202,11 +228,11 @@ def scn_compose(ctx):
     return True
 
 
-ASSUMPTIONS = ["layer configurations: map(+k), flat_map(v -> future of v+k; already done, or completed by another thread), retry(max_attempts=2, symbolic sleep in {0} u [128 eps, 10], exception_base=ScriptErr), poll(yields result+k at first sight), throttle(1|2), timeout(10000: never fires), cancel_on_shutdown",
+ASSUMPTIONS = ["layer configurations: map(+k), map with an error function (outermost only: recovers with a value, with None, or raises), flat_map(v -> future of v+k; already done, or completed by another thread), retry(max_attempts=2, symbolic sleep in {0} u [128 eps, 10], exception_base=ScriptErr), poll(yields result+k at first sight), throttle(1|2), timeout(10000: never fires), cancel_on_shutdown",
                "scripts: the first two invocations per (function, submission) may raise; submitted arguments are symbolic integers (x positional, y keyword); expected value x*2-y+sum(k) is proved equal by z3"]
 BOUNDS_TEXT = {"quick": "all 7 stacks of depth 1 (P<=1) and all 49 of depth 2 (P=0), over sync and thread_pool(2); 2 submissions from 2 threads",
                "thorough": "depth<=2 at P<=1, depth 3 (all 343) over sync at P=0; seed-selected depth 4-6 stacks at P=0 (beyond the bound, reported separately)"}
-MUST_REACH = {"*": ["value-checked", "error-checked"]}
+MUST_REACH = {"*": ["value-checked", "error-checked", "error-fn-checked"]}
 BUDGET = {"quick": 200.0, "thorough": 900.0}
 
 
@@ -232,6 +258,10 @@ def plan(tier, seed):
         items.append(dict(scenario=C, params=dict(layers=[l1, l2], base="sync", script_len=1, nsub=1 if (nh == 2 and q) else 2, threads=1 if (nh == 2 and q) else 2, argstyles=False), bounds=dict(P=0)))
         if not q or nh <= 1:
             items.append(dict(scenario=C, params=dict(layers=[l1, l2], base="pool", script_len=1, nsub=1, threads=1), bounds=dict(P=0)))
+    for l1 in LAYERS:
+        # a map layer with an error function (recovering with a value / with None / raising) on top
+        items.append(dict(scenario=C, params=dict(layers=[l1, "map_err"], base="sync", script_len=1, nsub=1, threads=1), bounds=dict(P=0)))
+    items.append(dict(scenario=C, params=dict(layers=["map_err"], base="pool", script_len=1, nsub=2, threads=2, argstyles=False), bounds=dict(P=0 if q else 1)))
     items.append(dict(scenario=C, params=dict(layers=["flat_map"], base="pool", flat_async=True, script_len=1), bounds=dict(P=0 if q else 1)))
     if not q:
         for l3 in itertools.product(LAYERS, LAYERS, LAYERS):
